@@ -101,6 +101,10 @@ pub fn run_bisync(
     let host = host_id();
     // Start from the trusted base and mutate to the new common state as we apply.
     let mut common = base;
+    // Reconcile only visits paths present on A or B, so an entry for a path that is now
+    // absent on BOTH sides would otherwise survive forever and later turn a re-created
+    // file into a "delete". Both sides deleted it: there is nothing left to remember.
+    common.retain(|p, _| a.contains_key(p) || b.contains_key(p));
     let mut conflict_paths: Vec<PathBuf> = Vec::new();
     for (path, act) in &plan {
         apply(
